@@ -22,12 +22,13 @@ TOL_R = 1e-9
 PRIMES = first_primes(64)
 
 
-def unit_space(d):
-    return make_space({"bounds": [[0.0] * d, [1.0] * d], "precision": [0.25] * d})
+def unit_space(d, prec=0.25):
+    return make_space({"bounds": [[0.0] * d, [1.0] * d], "precision": [prec] * d})
 
 
-def box_space(lo, hi):
-    return make_space({"bounds": [list(lo), list(hi)], "precision": [(h - l) / 4 for l, h in zip(lo, hi)]})
+def box_space(lo, hi, div=4.0):
+    # div not an integer: the last grid value lies below the upper bound (the sequences live on the bounds, not on the grid span)
+    return make_space({"bounds": [list(lo), list(hi)], "precision": [(h - l) / div for l, h in zip(lo, hi)]})
 
 
 class C13(Check):
@@ -79,10 +80,13 @@ class C13(Check):
             # the same object is later used on a space of another dimension
             ops.insert(rng.randrange(1, len(ops)), ["dims", rng.randint(1, 12)])
         if rng.random() < 0.3:
+            scn["unit_prec"] = rng.choice([0.3, 0.0007, 0.125, 0.4])      # the grid need not end on the upper bound
+        if rng.random() < 0.3:
             # a search space that is not the unit cube: the unit-cube points are recovered from the pre-snap values by
             # undoing the affine map (lower + u * (upper - lower)); the same SearchSpace object serves every batch
             lo = [rng.choice([-5.0, -0.5, 0.5, 1.0, 3.0, 100.0]) for _ in range(scn["dims"])]
             scn["box"] = [lo, [l + rng.choice([0.5, 1.0, 2.0, 3.0, 8.0]) for l in lo]]
+            scn["box_div"] = rng.choice([4.0, 4.0, 4.3, 2.5, 7.77])
         return scn
 
     # ----------------------------------------------------------------------------------------
@@ -132,7 +136,7 @@ class C13(Check):
         engaged = seams.replace_global("digitize", digitize_data, rec)
         try:
             box = scn.get("box")
-            space = box_space(*box) if box else unit_space(d)
+            space = box_space(*box, div=scn.get("box_div", 4.0)) if box else unit_space(d, scn.get("unit_prec", 0.25))
             lo_w = [np.array(box[0]), np.array(box[1]) - np.array(box[0])] if box else None
             empty_p, empty_l = np.zeros((0, d)), np.zeros(0)
             if box:
